@@ -444,7 +444,7 @@ pub fn generate(seed: u64, thorough: bool) -> Vec<String> {
         for t in texts {
             out.push(blk_line(&r, &t));
         }
-        // F19 (scnr2: U+10FFFF is in no character class): a few dedicated cases on correct patterns only
+        // F21 (scnr2: U+10FFFF is in no character class): a few dedicated cases on correct patterns only
         if ["hash", "pascal", "braces2", "pyquote"].contains(&i.full.as_str()) {
             for body in [vec![0x10FFFFu32], vec!['x' as u32, 0x10FFFF, 'x' as u32]] {
                 let mut t = r.s.clone();
